@@ -376,12 +376,18 @@ def prove(assumptions, goal, timeout_s=10, opts=None, rounds=2):
     if not (opts or {}).get("no_slice"):
         assumptions = slice_assumptions(list(assumptions), goal)
     base = [a for a in assumptions] + [z3.Not(goal)]
-    inst = axioms.saturate(base, rounds=(opts or {}).get("rounds", rounds), opts=opts)
+    inst = axioms.saturate(base, rounds=int((opts or {}).get("rounds", rounds)), opts=opts)
     formulas = base + inst
     res, model, backend, ms = check_formulas(formulas, timeout_s)
     if res == "unsat":
         return Verdict(PROVED, backend, ms)
     if res == "sat":
+        from . import sigma
+        if any(n in sigma.BY_DECL for n in axioms.collect_apps(formulas)):
+            # Σ-functions are axiomatised by finitely many instances only: a model of the instances need not be a model of
+            # the sums.  Not a refutation: the model is kept as a hint for the replay, the verdict is UNDECIDED.
+            return Verdict(UNDECIDED, backend, ms, model=model,
+                           reason="sat modulo the generated Σ-axiom instances only (the model may be spurious)")
         return Verdict(REFUTED, backend, ms, model=model, reason="sat")
     return Verdict(UNDECIDED, backend, ms, reason=res)
 
